@@ -290,6 +290,8 @@ def step (_ : Unit) (ws : List String) : Unit × String × String × String :=
       | _ => ((), "bad-plan", "-", "")
     | _ => ((), "bad-op", "-", "")
   | "limt" :: _ => ((), "ok", "ok", "")
+  | "limx" :: _ => ((), "ok", "ok", "")
+  | "idx" :: _ => ((), "ok", "-", "")
   | "w" :: classes :: _ =>
     let cs := (classes.toList.filter (· != '-')).toArray
     let rows := List.range cs.size
